@@ -344,6 +344,14 @@ func (w *World) run(op *Op) (interface{}, error) {
 		return F[w.client].FireSome(&r, 3, 4), nil
 
 	// ------------------------------------------------------------------ unary, map
+	case "SoftMax":
+		return asDense(tensor.SoftMax(w.in(op, 0), op.N, w.funcOpts(op)...))
+	case "LogSoftMax":
+		return asDense(tensor.LogSoftMax(w.in(op, 0), op.N, w.funcOpts(op)...))
+	case "SoftMaxB":
+		return asDense(tensor.SoftMaxB(w.in(op, 0), w.in(op, 1), op.N, w.funcOpts(op)...))
+	case "LogSoftMaxB":
+		return asDense(tensor.LogSoftMaxB(w.in(op, 0), w.in(op, 1), op.N, w.funcOpts(op)...))
 	case "Clamp":
 		a := w.in(op, 0)
 		return asDense(tensor.Clamp(a, mkScalar(dtName(a), op.F), mkScalar(dtName(a), op.F+3), w.funcOpts(op)...))
